@@ -25,6 +25,8 @@ func (c02) Info(tier string) fw.Info {
 	return fw.Info{
 		Level: "exploration",
 		Rule: "(1) operator matrix: every (binary operator | compound assignment | prefix operator | cast | index) x operand type pair over {int, float, bool, str, [int], ?int, {a:int}, {?}, range} that the REAL analyzer admits (admissibility is discovered by asking the analyzer), x all operand value pairs from boundary pools (zero divisors, negative/huge shift counts, MinInt64/-1, extreme floats, empty lists, none, out-of-range indices), each as a one-expression program guarded by try, run on the VM (crash-isolated) and the interpreter; " +
+			"(1b) construct families (families.go): function literals written in every construct of their parent x body shapes (return/break/continue/throw below own try/loop) x call sites with fewer/more active try blocks; object types with data fields named like builtin members x value sources x uses as field / as method; constant global initialisers of every expression kind; parse_json values flowing into every declared type; " +
+			"NEAR-VALID programs breaking one language rule each (non-constant operand in every position of a global initialiser, a value of type B flowing into every kind of slot of type A, diverging branches next to misfitting values, missing results, misplaced control flow, wrong arity, calls of non-functions): executed only if the real analyzer accepts them - whatever the analyzer admits must not crash the host; " +
 			"(2) the generated programs of C01 re-run under hostile CoreLimits triples and interpreter call limits. Oracle: the process survives and the host gets normal completion or an interrupt value; the dynamic kind of the result handed to the host (probe) matches the static type; wedging is decided by a step budget. " +
 			"non-trivial = accepted by the analyzer and executed on both backends; distinct = distinct program text x limits",
 		Assumptions:  []string{"memory bombs through data growth are capped by the address-space limit of the worker and not explored"},
@@ -215,6 +217,8 @@ func (c02) Cases(tier string, seed uint64) []fw.Case {
 			}
 		}
 	}
+	// (1b) construct families and near-valid programs (families.go)
+	cases = append(cases, familyCases(tier == "thorough")...)
 	// (2) limits sweep over generated programs
 	r := fw.NewRng(seed ^ 0xC02)
 	nl := 1500
@@ -275,13 +279,15 @@ func (c02) Run(c fw.Case) fw.Result {
 		return runLimits(p, res)
 	}
 	src := drive.Sources{"main": p.Src}
-	res.Cover = []string{"shape:" + strings.SplitN(p.Shape, ":", 2)[0]}
+	fam := strings.SplitN(p.Shape, ":", 2)[0]
+	res.Cover = []string{"shape:" + fam}
 	ao := drive.Analyze(src, "main", true)
 	if ao.Errors > 0 {
-		res.Cover = append(res.Cover, "not-admitted-for-these-values")
+		res.Cover = append(res.Cover, "not-admitted-for-these-values", "rejected:"+fam)
 		return res
 	}
 	res.Nontrivial = true
+	res.Cover = append(res.Cover, "admitted:"+fam)
 	tr := drive.RunTree(ao.Modules, src, "main", drive.TreeOpts{StepBudget: 2_000_000})
 	if !okOutcome(tr.Outcome) {
 		res.Verdict = fw.Violated
